@@ -7,6 +7,7 @@ import (
 	"strings"
 
 	"github.com/mmcloughlin/avo/attr"
+	"github.com/mmcloughlin/avo/build"
 	"github.com/mmcloughlin/avo/ir"
 	"github.com/mmcloughlin/avo/operand"
 	"github.com/mmcloughlin/avo/pass"
@@ -292,6 +293,17 @@ func pipelineCorpus() []*Prog {
 		add(x86.ADDQ(reg.RDX, t3))
 		add(x86.ADDQ(t1, t3))
 		add(x86.ADDQ(t2, t3))
+		add(x86.RET())
+	})
+	mk("two explicit outputs of which only one is used afterwards (MULXQ: low half kept, high half dead; then the reverse)", func(c *reg.Collection, add func(*ir.Instruction, error), lbl func(string)) {
+		x, y, lo, hi, lo2, hi2 := c.GP64(), c.GP64(), c.GP64(), c.GP64(), c.GP64(), c.GP64()
+		add(x86.MOVQ(operand.U32(3), x))
+		add(x86.MOVQ(operand.U32(5), y))
+		add(x86.MOVQ(x, reg.RDX))
+		add(x86.MULXQ(y, lo, hi))
+		add(x86.MOVQ(lo, operand.Mem{Base: reg.RSP, Disp: 8}))
+		add(x86.MULXQ(y, lo2, hi2))
+		add(x86.MOVQ(hi2, operand.Mem{Base: reg.RSP, Disp: 16}))
 		add(x86.RET())
 	})
 	mk("values dying at an exchange and at a division (two explicit / two implicit outputs)", func(c *reg.Collection, add func(*ir.Instruction, error), lbl func(string)) {
@@ -698,4 +710,88 @@ func emitLargeCases(c *Ctx, progs []*Prog) {
 	}
 	o.Stage(files...)
 	o.Plan.Stats["large_functions"] = len(progs)
+}
+
+// bpListedFile: a file of several functions, one of which writes the base pointer, whose function list the
+// generator has looked at (and filtered in place for its own purposes, as one that prints an index of the
+// exported functions would) before compiling: every TEXT block of the printed file whose code writes BP
+// still declares a frame, and a NOFRAME function that writes it is still refused.
+func bpListedFile(o *Out) {
+	for variant := 0; variant < 4; variant++ {
+		ctx := build.NewContext()
+		names := []string{"clobber", "Sum", "helper", "Dot"}
+		if variant%2 == 1 {
+			names = []string{"Sum", "Dot", "clobber", "helper"}
+		}
+		for _, n := range names {
+			ctx.Function(n)
+			ctx.Attributes(attr.NOSPLIT)
+			if n == "clobber" && variant >= 2 {
+				ctx.Attributes(attr.NOSPLIT | attr.NOFRAME)
+			}
+			ctx.SignatureExpr("func(x uint64) uint64")
+			v := ctx.GP64()
+			ctx.Load(ctx.Param("x"), v)
+			if n == "clobber" {
+				ctx.MOVQ(v, reg.RBP)
+				ctx.ADDQ(reg.RBP, v)
+			}
+			ctx.Store(v, ctx.ReturnIndex(0))
+			ctx.RET()
+		}
+		f, err := ctx.Result()
+		if err != nil {
+			continue
+		}
+		// the generator's own use of the list: keep the exported names, in place
+		fns := f.Functions()
+		kept := fns[:0]
+		for _, fn := range fns {
+			if fn.Name[0] >= 'A' && fn.Name[0] <= 'Z' {
+				kept = append(kept, fn)
+			}
+		}
+		for k := len(kept); k < len(fns); k++ {
+			fns[k] = nil
+		}
+		desc := fmt.Sprintf("functions %v (clobber writes BP%s); the caller filters the slice Functions() returned in place, then compiles", names, map[bool]string{false: "", true: ", NOFRAME"}[variant >= 2])
+		idx := o.AddCase(Case{Key: "bp:listed-file", Desc: desc, Input: map[string]any{"functions": names, "noframe": variant >= 2}, Nontrivial: true})
+		var cerr error
+		func() {
+			defer func() {
+				if r := recover(); r != nil {
+					cerr = fmt.Errorf("panic: %v", r)
+				}
+			}()
+			cerr = pass.Compile.Execute(f)
+		}()
+		if variant >= 2 {
+			if cerr == nil {
+				o.Plan.GoViolations = append(o.Plan.GoViolations, GoViolation{Key: "bp:listed-file", Desc: fmt.Sprintf("case %d: %s: the NOFRAME function that writes the base pointer was compiled without an error", idx, desc), Replay: map[string]any{"functions": names, "noframe": true}})
+			}
+			continue
+		}
+		if cerr != nil {
+			o.Plan.GoViolations = append(o.Plan.GoViolations, GoViolation{Key: "bp:listed-file", Desc: fmt.Sprintf("case %d: %s: compile error %v", idx, desc, cerr), Replay: map[string]any{"functions": names}})
+			continue
+		}
+		out, err := printer.NewGoAsm(printer.Config{Name: "avo", Pkg: "p"}).Print(f)
+		if err != nil {
+			continue
+		}
+		frame, cur := int64(-1), ""
+		for _, ln := range strings.Split(string(out), "\n") {
+			if strings.HasPrefix(ln, "TEXT ") {
+				cur = ln
+				frame = -1
+				if m := textFrameRe.FindStringSubmatch(ln); m != nil {
+					frame, _ = strconv.ParseInt(m[1], 10, 64)
+				}
+			}
+			if strings.HasPrefix(ln, "\t") && strings.HasSuffix(strings.TrimSpace(ln), ", BP") && frame <= 0 {
+				o.Plan.GoViolations = append(o.Plan.GoViolations, GoViolation{Key: "bp:listed-file", Desc: fmt.Sprintf("case %d: %s: `%s` writes the base pointer in the block %q, which declares no frame", idx, desc, strings.TrimSpace(ln), cur), Replay: map[string]any{"functions": names, "text": string(out)}})
+				break
+			}
+		}
+	}
 }
